@@ -52,7 +52,7 @@ func TestC16(t *testing.T) {
 			conf.Upstream.Rebalance.ShedRate = 0.3
 		})
 		if err != nil {
-			c.Fatalf("harness: start cluster: %v", err)
+			c.Harnessf("start cluster: %v", err)
 		}
 		defer cl.Stop()
 		if !cl.WaitMembership(Deadline()) {
@@ -70,7 +70,7 @@ func TestC16(t *testing.T) {
 		connect := func(id int, ep string, node *TNode, exp time.Time, slow bool) *c16Up {
 			r, err := NewRelay(node.UpstreamAddr())
 			if err != nil {
-				c.Fatalf("harness: relay: %v", err)
+				c.Harnessf("relay: %v", err)
 			}
 			tok := MintHS(k.HMAC, nil, exp)
 			u, err := ConnectUpstream(context.Background(), node, fmt.Sprintf("u%d", id), ep, "sdk-http", UpstreamOpts{URL: "http://" + r.Addr(), Token: tok})
@@ -162,7 +162,13 @@ func TestC16(t *testing.T) {
 		}
 		K := c.Int("upstreams", 2, 6)
 		for i := 0; i < K; i++ {
-			connect(i, c.OneOf("ep", "e0", "e1"), cl.Nodes[c.Pick("node", N)], time.Time{}, c.Chance("slow", 1, 3))
+			// tokens without an expiry and tokens that expire long after the scenario ends
+			var exp time.Time
+			if c.Bool("tokenWithFarExpiry") {
+				exp = time.Now().Add(time.Hour)
+				c.Class("far-expiry-token")
+			}
+			connect(i, c.OneOf("ep", "e0", "e1"), cl.Nodes[c.Pick("node", N)], exp, c.Chance("slow", 1, 3))
 		}
 		quiesce("after connecting")
 		// endings
